@@ -47,15 +47,15 @@ MIME_TO_UPNP_CLASS_MAPPING: Mapping[str, str] = {
 
 
 STATE_VARIABLE_TYPE_MAPPING: Mapping[str, Mapping[str, Callable]] = {
-    "ui1": {"type": int, "in": int, "out": str},
-    "ui2": {"type": int, "in": int, "out": str},
-    "ui4": {"type": int, "in": int, "out": str},
-    "ui8": {"type": int, "in": int, "out": str},
-    "i1": {"type": int, "in": int, "out": str},
-    "i2": {"type": int, "in": int, "out": str},
-    "i4": {"type": int, "in": int, "out": str},
-    "i8": {"type": int, "in": int, "out": str},
-    "int": {"type": int, "in": int, "out": str},
+    "ui1": {"type": int, "in": int, "out": lambda i: str(int(i))},
+    "ui2": {"type": int, "in": int, "out": lambda i: str(int(i))},
+    "ui4": {"type": int, "in": int, "out": lambda i: str(int(i))},
+    "ui8": {"type": int, "in": int, "out": lambda i: str(int(i))},
+    "i1": {"type": int, "in": int, "out": lambda i: str(int(i))},
+    "i2": {"type": int, "in": int, "out": lambda i: str(int(i))},
+    "i4": {"type": int, "in": int, "out": lambda i: str(int(i))},
+    "i8": {"type": int, "in": int, "out": lambda i: str(int(i))},
+    "int": {"type": int, "in": int, "out": lambda i: str(int(i))},
     "r4": {"type": float, "in": float, "out": str},
     "r8": {"type": float, "in": float, "out": str},
     "number": {"type": float, "in": float, "out": str},
